@@ -13,8 +13,8 @@ SchemaG == SchemaF(<<
     <<"tags", With(ListF(StringF), [default |-> ListV(<<>>)])>>,
     <<"db", DbS>>,
     <<"virt", VirtualF>> >>)
-MCKeyNames == {"host", "port", "rate", "debug", "log_level", "tags", "db", "pool_size", "ssl", "auth", "user_name", "virt"}
-MCKeyChars == [k \in MCKeyNames |-> CASE k = "host" -> <<"h", "o", "s", "t">> [] k = "port" -> <<"p", "o", "r", "t">> [] k = "rate" -> <<"r", "a", "t", "e">> [] k = "debug" -> <<"d", "e", "b", "u", "g">> [] k = "log_level" -> <<"l", "o", "g", "_", "l", "e", "v", "e", "l">> [] k = "tags" -> <<"t", "a", "g", "s">> [] k = "db" -> <<"d", "b">> [] k = "pool_size" -> <<"p", "o", "o", "l", "_", "s", "i", "z", "e">> [] k = "ssl" -> <<"s", "s", "l">> [] k = "auth" -> <<"a", "u", "t", "h">> [] k = "user_name" -> <<"u", "s", "e", "r", "_", "n", "a", "m", "e">> [] k = "virt" -> <<"v", "i", "r", "t">>]
+MCKeyNames == {"host", "port", "rate", "debug", "log_level", "tags", "db", "pool_size", "ssl", "auth", "user_name", "virt", "srv", "bind_ip", "net", "peer", "site_url", "conf_file", "api_key", "blob", "hash", "opts", "l1", "l2", "l3", "max_conn", "ratio", "on", "name2", "ct", "inner_flag", "a1", "feat", "enabled", "mode"}
+MCKeyChars == [k \in MCKeyNames |-> CASE k = "host" -> <<"h", "o", "s", "t">> [] k = "port" -> <<"p", "o", "r", "t">> [] k = "rate" -> <<"r", "a", "t", "e">> [] k = "debug" -> <<"d", "e", "b", "u", "g">> [] k = "log_level" -> <<"l", "o", "g", "_", "l", "e", "v", "e", "l">> [] k = "tags" -> <<"t", "a", "g", "s">> [] k = "db" -> <<"d", "b">> [] k = "pool_size" -> <<"p", "o", "o", "l", "_", "s", "i", "z", "e">> [] k = "ssl" -> <<"s", "s", "l">> [] k = "auth" -> <<"a", "u", "t", "h">> [] k = "user_name" -> <<"u", "s", "e", "r", "_", "n", "a", "m", "e">> [] k = "virt" -> <<"v", "i", "r", "t">> [] k = "srv" -> <<"s", "r", "v">> [] k = "bind_ip" -> <<"b", "i", "n", "d", "_", "i", "p">> [] k = "net" -> <<"n", "e", "t">> [] k = "peer" -> <<"p", "e", "e", "r">> [] k = "site_url" -> <<"s", "i", "t", "e", "_", "u", "r", "l">> [] k = "conf_file" -> <<"c", "o", "n", "f", "_", "f", "i", "l", "e">> [] k = "api_key" -> <<"a", "p", "i", "_", "k", "e", "y">> [] k = "blob" -> <<"b", "l", "o", "b">> [] k = "hash" -> <<"h", "a", "s", "h">> [] k = "opts" -> <<"o", "p", "t", "s">> [] k = "l1" -> <<"l", "1">> [] k = "l2" -> <<"l", "2">> [] k = "l3" -> <<"l", "3">> [] k = "max_conn" -> <<"m", "a", "x", "_", "c", "o", "n", "n">> [] k = "ratio" -> <<"r", "a", "t", "i", "o">> [] k = "on" -> <<"o", "n">> [] k = "name2" -> <<"n", "a", "m", "e", "2">> [] k = "ct" -> <<"c", "t">> [] k = "inner_flag" -> <<"i", "n", "n", "e", "r", "_", "f", "l", "a", "g">> [] k = "a1" -> <<"a", "1">> [] k = "feat" -> <<"f", "e", "a", "t">> [] k = "enabled" -> <<"e", "n", "a", "b", "l", "e", "d">> [] k = "mode" -> <<"m", "o", "d", "e">>]
 MCEnviron == [x \in {} |-> <<>>]
 MCSetCands ==
     [pk \in {<< <<>>, "port">>, << <<>>, "debug">>, << <<"db">>, "ssl">>, << <<"db">>, "host">>, << <<>>, "log_level">>} |->
@@ -41,4 +41,51 @@ MCArgPool == {<<>>,
               <<[o |-> <<"-", "-", "l", "o", "g", "-", "l", "e", "v", "e", "l">>, v |-> <<"n", "o", "p", "e">>]>>,
               <<[o |-> <<"-", "-", "d", "b", "-", "h", "o", "s", "t">>, v |-> <<"d", "b", "h">>], [o |-> <<"-", "-", "d", "b", "-", "s", "s", "l">>]>>}
 MCIgnore == {{}, {<<"port">>}, {<<"db", "ssl">>, <<"debug">>}}
+
+(* ---- further schemas and pools derived from the schema itself: the quantifier "for every root
+        schema" of C16 is sampled over shapes instead of one hand-written instance ---- *)
+\* every string-like field class, numbers, switches, fields without an option (bytes, digest, typed
+\* dict), three levels of nesting with "_" and digits in the keys, a config type (not recursed into)
+L3S == SchemaF(<< <<"max_conn", With(IntF, [default |-> IntV(4)])>>, <<"inner_flag", With(BoolF, [default |-> BoolV(TRUE)])>> >>)
+L2S == SchemaF(<< <<"ratio", FloatF>>, <<"l3", L3S>>, <<"name2", With(StringF, [maxlen |-> 3])>> >>)
+L1S == SchemaF(<< <<"l2", L2S>>, <<"on", BoolF>> >>)
+CtA == [ctype |-> TRUE] @@ SchemaF(<< <<"a1", With(IntF, [default |-> IntV(1)])>> >>)
+SchemaG2 == SchemaF(<<
+    <<"bind_ip", With(IPv4AddrF, [default |-> StrV(<<"1", "0", ".", "0", ".", "0", ".", "1">>)])>>,
+    <<"net", IPv4NetF>>,
+    <<"peer", HostnameF>>,
+    <<"site_url", UrlF>>,
+    <<"conf_file", FilenameF>>,
+    <<"blob", BytesF>>,
+    <<"hash", ChallengeF>>,
+    <<"opts", With(DictF(StringF, IntF), [default |-> DictV(<<>>)])>>,
+    <<"l1", L1S>>,
+    <<"ct", CtA>>,
+    <<"srv", With(PortF, [default |-> IntV(8080)])>> >>)
+\* a single nested level only, booleans only / nothing with an option at the root
+SchemaG3 == SchemaF(<< <<"tags", With(ListF(StringF), [default |-> ListV(<<>>)])>>,
+                       <<"l3", L3S>>, <<"virt", VirtualF>> >>)
+
+\* pools derived from the option table
+GTok(op, v) == IF op.action = "store" THEN [o |-> op.name, v |-> v] ELSE [o |-> op.name]
+GVals(op) == IF op.action = "store" THEN {<<"7">>, <<"x", "y">>, <<"1", "0", ".", "0", ".", "0", ".", "9">>} ELSE {<<>>}
+GenArgPool ==
+    LET o == Options
+        n == Len(o)
+        one == {<<GTok(o[i], v)>> : i \in DOMAIN o, v \in {<<>>}} \cup UNION {{<<GTok(o[i], v)>> : v \in GVals(o[i])} : i \in DOMAIN o}
+        two == IF n < 2 THEN {}
+               ELSE {<<GTok(o[1], <<"7">>), GTok(o[n], <<"7">>)>>, <<GTok(o[n], <<"8">>), GTok(o[n], <<"9">>)>>,
+                     <<GTok(o[1], <<"x", "y">>), GTok(o[2], <<"7">>)>>}
+        novalue == {<<[o |-> o[i].name]>> : i \in {j \in DOMAIN o : o[j].action = "store"}}
+        switchval == {<<[o |-> o[i].name, v |-> <<"1">>]>> : i \in {j \in DOMAIN o : o[j].action # "store"}}
+    IN  {<<>>, <<[o |-> <<"-", "-", "b", "o", "g", "u", "s">>]>>} \cup one \cup two \cup novalue \cup switchval
+GenIgnore == LET ds == DestOrder IN
+             {{}} \cup (IF Len(ds) >= 1 THEN {{ds[1]}} ELSE {}) \cup (IF Len(ds) >= 3 THEN {{ds[Len(ds)], ds[2]}} ELSE {})
+GenSetCandsA ==
+    LET ds == DestSet IN
+    [pk \in {<<SubSeq(d, 1, Len(d) - 1), d[Len(d)]>> : d \in ds} |->
+        LET f == FieldOf(SchemaAt(S, pk[1]), pk[2]) IN
+        CASE f.kind = "bool" -> {BoolV(TRUE), BoolV(FALSE)}
+          [] f.kind \in {"int", "float"} -> {IntV(3)}
+          [] OTHER -> {StrV(<<"1", "0", ".", "0", ".", "0", ".", "2">>)}]
 ====
